@@ -19,3 +19,39 @@ Proof.
 Qed.
 
 Print Assumptions gen_batch_indices_eq_model.
+
+(* PPO.train with PPO.train_epoch inlined (ppo.py; train_batch is an arbitrary function `step` of the carry (policy, optimiser state) and a
+   gathered minibatch; jr.permutation is an arbitrary function `perm` of key and size): the carry is threaded through num_epochs epochs, epoch e
+   shuffles with ITS OWN key split(key, num_epochs)[e], and inside an epoch through EVERY row of batch_indices(batch_size, that key), in order,
+   each row gathered from the flattened buffer = Batching.train, about which props/C09.v proves the partition / fresh-shuffle statements *)
+Lemma kfoldmap_fold {C K Y : Type} (F : C -> K -> C * Y) (G : C -> K -> C) :
+  (forall c k, fst (F c k) = G c k) -> forall l c, fst (kfoldmap F c l) = fold_left G l c.
+Proof.
+  intros H l. induction l as [|k l IH]; intros c; [reflexivity|].
+  cbn [kfoldmap fold_left]. cbv zeta. cbn [fst]. rewrite IH, H. reflexivity.
+Qed.
+
+Lemma fold_left_ext {C K : Type} (G H : C -> K -> C) : (forall c k, G c k = H c k) -> forall l c, fold_left G l c = fold_left H l c.
+Proof. intros E l. induction l as [|k l IH]; intros c; cbn; [reflexivity | now rewrite E, IH]. Qed.
+
+Theorem gen_ppotrain_eq_model {X OS A ST : Type} (stat : ST) (perm : kpath -> nat -> list nat) (step : X * OS -> soa A -> X * OS) (d : A)
+        (B E : nat) (buf : soa2 A) (pol : X) (opt : OS) (k : kpath) :
+  (gen_ppotrain_policy stat perm step d B E buf pol opt k, gen_ppotrain_opt_state stat perm step d B E buf pol opt k) =
+  train perm step d B E buf (pol, opt) k.
+Proof.
+  unfold gen_ppotrain_policy, gen_ppotrain_opt_state, train, kfoldmapi.
+  rewrite Nat2Z.id.
+  match goal with |- context [kfoldmap ?f (pol, opt) _] => set (F := f) end.
+  transitivity (fst (kfoldmap F (pol, opt) (ksplit_keys k E))).
+  { destruct (fst (kfoldmap F (pol, opt) (ksplit_keys k E))); reflexivity. }
+  rewrite (kfoldmap_fold F (fun c k0 => fst (F c k0))) by reflexivity.
+  unfold ksplit_keys, epoch_keys. apply fold_left_ext. intros [c0 c1] k0. subst F. cbv beta iota.
+  unfold train_epoch. cbn [fst].
+  match goal with |- context [kfoldmap ?f (c0, c1) _] => set (Fi := f) end.
+  transitivity (fst (kfoldmap Fi (c0, c1) (batch_indices B (perm k0 (soa_len (flatten_soa buf)))))).
+  { destruct (fst (kfoldmap Fi (c0, c1) (batch_indices B (perm k0 (soa_len (flatten_soa buf)))))); reflexivity. }
+  apply kfoldmap_fold. intros [a b] row. subst Fi. cbn [fst].
+  destruct (step (a, b) (gather_soa d (flatten_soa buf) row)); reflexivity.
+Qed.
+
+Print Assumptions gen_ppotrain_eq_model.
